@@ -32,13 +32,14 @@ Inductive perr :=
 | UnknownBound | ExpectedBoundInTypeParameterDefinition | ExpectedCommaOrRightAngleBracket
 | ExpectedTypeParameterName | ExpectedTokenInFunctionType | ExpectedTokenInListType
 | ExpectedDimensionPrimary | ExpectedDimensionExponent | NumberInDimensionExponentOutOfRange
-| DivisionByZeroInDimensionExponent | OverflowInDimensionExponent | UnknownAliasAnnotation.
+| DivisionByZeroInDimensionExponent | OverflowInDimensionExponent | UnknownAliasAnnotation
+| EmptyStringInterpolation | UnterminatedStringParse.
 
 Inductive res (A : Type) :=
 | Ok (a : A) (rest : list token)
 | Err (e : perr)
 | OutOfFuel
-| Unsupported.     (* string interpolation / statement syntax: outside this model *)
+| Unsupported.     (* a construct outside this model (a `>=` token that closes a type-parameter list) *)
 Arguments Ok {A}. Arguments Err {A}. Arguments OutOfFuel {A}. Arguments Unsupported {A}.
 
 Definition parser := list token -> res expr.
@@ -192,6 +193,46 @@ Section Levels.
         end
     end.
 
+  (* Parser::interpolation: the expression of one `{…}` and its optional format specifiers.
+     The error of an empty interpolation (Parser::primary: the previous token is the opening string
+     part and nothing can start an expression) is decided on the first token: every other token is
+     consumed by a prefix rule or by primary before an ExpectedPrimary can arise. *)
+  Definition starts_no_expression (ts : list token) : bool :=
+    match ts with
+    | [] => true
+    | t :: _ =>
+        match t with
+        | TNumber _ | TIntBase _ _ | TNaN | TInf | TLBracket | TQuestionMark | TIdent _ | TTrue | TFalse
+        | TString _ | TInterpStart _ | TLParen | TMinus | TPlus | TExcl | TIf => false
+        | TKw KPrint | TKw KAssertEq => false
+        | _ => true
+        end
+    end.
+  Definition interpolation (ts : list token) : res (list (ipart expr)) :=
+    if starts_no_expression ts then Err EmptyStringInterpolation
+    else
+      bind (expression ts) (fun e rest =>
+        match rest with
+        | TInterpSpec f :: rest' => Ok [PExpr e (Some f)] rest'
+        | _ => Ok [PExpr e None] rest
+        end).
+  Definition nonempty_part (p : ipart expr) : bool :=
+    match p with PFixed [] => false | _ => true end.
+  (* the loop over StringInterpolationMiddle / End tokens *)
+  Fixpoint interp_loop (n : nat) (acc : list (ipart expr)) (ts : list token) : res expr :=
+    match n with
+    | O => OutOfFuel
+    | S n =>
+        match ts with
+        | TInterpMiddle lex :: r =>
+            bind (interpolation r) (fun ps rest =>
+              interp_loop n (acc ++ PFixed (strip_and_escape lex) :: ps) rest)
+        | TInterpEnd lex :: r =>
+            Ok (EInterp (filter nonempty_part (acc ++ [PFixed (strip_and_escape lex)]))) r
+        | _ => Err UnterminatedStringParse
+        end
+    end.
+
   (* Parser::primary *)
   Definition primary : parser := fun ts =>
     match ts with
@@ -208,7 +249,9 @@ Section Levels.
     | TTrue :: r => Ok (EBool true) r
     | TFalse :: r => Ok (EBool false) r
     | TString lex :: r => Ok (EString (strip_and_escape lex)) r
-    | TInterpStart _ :: _ => Unsupported
+    | TInterpStart lex :: r =>
+        bind (interpolation r) (fun ps rest =>
+          interp_loop (S (length rest)) (PFixed (strip_and_escape lex) :: ps) rest)
     | TLParen :: r =>
         bind (expression r) (fun inner rest =>
           match rest with
@@ -216,7 +259,6 @@ Section Levels.
           | _ => Err MissingClosingParen
           end)
     | TKw KPrint :: _ | TKw KAssertEq :: _ => Err InlineProcedureUsage
-    | TInterpMiddle _ :: _ | TInterpEnd _ :: _ | TInterpSpec _ :: _ => Unsupported
     | _ => Err ExpectedPrimary
     end.
 
